@@ -535,7 +535,7 @@ def gen_trees(ctx):
         bits, _s = ty_bs(name)
         lo, hi = rng_of(name)
         p = pool(name, rng, 2)
-        small = sorted(set([0, 1, -1, 2, lo, hi, bits - 1, bits, rng.randint(lo, hi)]) & set(range(lo, hi + 1)) | {lo, hi})
+        small = sorted(v for v in {0, 1, -1, 2, lo, hi, bits - 1, bits, rng.randint(lo, hi)} if lo <= v <= hi)
         for op in opn:
             vals = p if op in ('+', '-', '*', '%', '<<', '>>') else small
             for a in vals:
